@@ -27,8 +27,15 @@ means for the hook calls of one node is `node_language`.
 * `removeAll_current_prefix`, `run_clean_at_return_prefix` : the scan WITHOUT the recorder (the tree before
                               `fixes/c14_map_stop.patch`) stops only the slots up to the first throwing child; concrete
                               run where child `2#1` is still started when `run()` returns its sibling's stop error.
-* `swRun_no_violation`, `swRun_clean_at_return`, `swRun_clean_at_release` : the same for `switch_` (the replaced
-                              branch is stopped before the new one starts; a failing stop / start of a branch change).
+* `swRun_no_violation`, `swRun_clean_at_return`, `swRun_clean_at_release` : the same for `switch_`, owned output
+                              (`switch_teardown`) and forwarding output (`output_forwards_to_child_terminal`) alike, for
+                              the code's order of `activate_branch` (outgoing branch stopped, THEN its slot retired).
+* `sw_outgoing_stopped_at_key_change` : after `activate_branch` every node of the branch that was active is stopped —
+                              in the cycle of the key change, whatever the outgoing stops / incoming starts throw.
+* `sw_outgoing_stop_error_reaches_caller`, `swRun_first_error` : a throwing stop hook in the outgoing branch makes
+                              `activate_branch` throw, and a cycle error is what `run()` reports.
+* `swRun_retire_first_prefix` : counter-lemma for the order of seed s88 (slot retired before the stop): the outgoing
+                              branch is still started when `run()` returns normally, its stop error is lost.
 * `reduce_run_no_violation`, `reduce_clean_at_return`, `reduce_clean_at_release` : the same for the combiner graphs of
                               `reduce_` (created by a structural change or a capacity growth, rolled back when a
                               sibling's start throws, retired by a shrink or a growth, stopped by the parent's stop).
@@ -1333,7 +1340,45 @@ theorem run_clean_at_return_prefix :
   intro hc
   exact hc ⟨2, 1⟩ 0 hw
 
-/-! ## the switch node -/
+/-! ## a throwing stop hook makes the child graph's stop report an error -/
+
+theorem nodeStop_err (h : Hooks υ) (c : Cid) (i : Nat) (w : World υ) : (nodeStop h c i w).err = (h.stop c i w.u).2 := by
+  unfold nodeStop
+  simp only [emit_u]
+  cases (h.stop c i w.u).2 <;> rfl
+
+theorem stopLoop_err_sticky' {σ : Type} (stop : Nat → σ → StepRes σ) (k : Nat) (s : σ) (vis : List Nat) (e : Option String)
+    (he : e ≠ none) : (stopLoop stop k s vis e).err ≠ none := by
+  cases e with
+  | none => exact absurd rfl he
+  | some m => rw [stopLoop_err_some]; simp
+
+/-- a node whose stop hook throws (whatever the state) makes the child graph's stop report an error -/
+theorem stopLoop_err_of_throw (h : Hooks υ) (c : Cid) (k : Nat) (w : World υ) (vis : List Nat) (e : Option String)
+    (j : Nat) (hj : j < k) (ht : ∀ u, (h.stop c j u).2 ≠ none) :
+    (stopLoop (nodeStop h c) k w vis e).err ≠ none := by
+  induction k generalizing w vis e with
+  | zero => omega
+  | succ k ih =>
+    rw [stopLoop_succ]
+    by_cases hjk : j = k
+    · subst hjk
+      apply stopLoop_err_sticky'
+      rw [nodeStop_err]
+      cases e with
+      | some m => simp [keepFirst]
+      | none => simp only [keepFirst]; exact ht _
+    · exact ih _ _ _ (by omega)
+
+theorem childStop_err_of_throw (h : Hooks υ) (n : Nat) (c : Cid) (w : World υ) (j : Nat) (hj : j < n)
+    (ht : ∀ u, (h.stop c j u).2 ≠ none) : (childStop h n c w).2 ≠ none := by
+  unfold childStop
+  exact stopLoop_err_of_throw h c n _ [] none j hj ht
+
+/-! ## the switch node
+
+Everything below is for the code's order of `activate_branch` (`hord`: the outgoing branch is stopped BEFORE its slot is
+retired), in both output modes (`cfg.fwd` false = owned output / `switch_teardown`, true = forwarding output). -/
 
 structure SwInv (n : Nat) (m : SwSt υ) : Prop where
   ok : (Lw m.w).bad = false
@@ -1341,6 +1386,8 @@ structure SwInv (n : Nat) (m : SwSt υ) : Prop where
         (∀ i, i < n → (Lw m.w).st e.cid i = .started) ∧ e.gen ≤ m.gens e.key
   back : ∀ c i, (Lw m.w).st c i = .started → i < n ∧ ∃ e, m.active = some e ∧ e.started = true ∧ e.cid = c
   fresh : ∀ c : Cid, m.gens c.key < c.gen → ∀ i, (Lw m.w).st c i = .fresh
+  /-- the graph in the retired slot was stopped before it was retired -/
+  ret : ∀ e, m.retired = some e → e.started = false
 
 def SwNoStarted (m : SwSt υ) : Prop := ∀ e, m.active = some e → e.started = false
 
@@ -1348,10 +1395,11 @@ theorem SwInv.init (n : Nat) (u0 : υ) : SwInv n ({ w := { u := u0 } } : SwSt υ
   { ok := rfl
     st := by intro e h; cases h
     back := by intro c i h; cases h
-    fresh := by intro c _ i; rfl }
+    fresh := by intro c _ i; rfl
+    ret := by intro e h; cases h }
 
 theorem SwInv.setW {n : Nat} {m : SwSt υ} (hI : SwInv n m) (w' : World υ) (hw : Lw w' = Lw m.w) : SwInv n { m with w := w' } := by
-  refine ⟨?_, ?_, ?_, ?_⟩
+  refine ⟨?_, ?_, ?_, ?_, hI.ret⟩
   · show (Lw w').bad = false; rw [hw]; exact hI.ok
   · intro e h1 h2; show (∀ i, i < n → (Lw w').st e.cid i = .started) ∧ _; rw [hw]; exact hI.st e h1 h2
   · intro c i h1; have : (Lw m.w).st c i = .started := by rw [← hw]; exact h1
@@ -1364,18 +1412,26 @@ theorem sw_clean_of_noStarted {n : Nat} {m : SwSt υ} (hI : SwInv n m) (hn : SwN
   rw [hn e h1] at h2
   cases h2
 
-/-- stopping the active branch: afterwards nothing is started, whatever throws -/
+/-- stopping the active branch: afterwards nothing is started, whatever throws; the nodes of the branch that was
+    active are `stopped` -/
 theorem swStop_spec (cfg : Cfg) (h : Hooks υ) (m : SwSt υ) (hI : SwInv cfg.n m) :
-    SwInv cfg.n (swStop cfg h m).1 ∧ SwNoStarted (swStop cfg h m).1 ∧ (swStop cfg h m).1.gens = m.gens := by
+    SwInv cfg.n (swStop cfg h m).1 ∧ SwNoStarted (swStop cfg h m).1 ∧ (swStop cfg h m).1.gens = m.gens ∧
+    (swStop cfg h m).1.retired = m.retired ∧
+    (∀ e, m.active = some e → e.started = true →
+      (∀ i, i < cfg.n → (Lw (swStop cfg h m).1.w).st e.cid i = .stopped) ∧
+      (swStop cfg h m).2 = (childStop h cfg.n e.cid m.w).2 ∧
+      (swStop cfg h m).1.active = some { e with started := false }) := by
   cases hes : m.active with
   | none =>
     have hr : swStop cfg h m = (m, none) := by simp only [swStop, hes]
-    rw [hr]; exact ⟨hI, (by intro e he; rw [hes] at he; cases he), rfl⟩
+    rw [hr]; exact ⟨hI, (by intro e he; rw [hes] at he; cases he), rfl, rfl, (by intro e he; cases he)⟩
   | some e =>
     cases hst : e.started with
     | false =>
       have hr : swStop cfg h m = (m, none) := by simp [swStop, hes, hst]
-      rw [hr]; exact ⟨hI, (by intro e' he; rw [hes] at he; cases he; exact hst), rfl⟩
+      rw [hr]
+      exact ⟨hI, (by intro e' he; rw [hes] at he; cases he; exact hst), rfl, rfl,
+        (by intro e' he hs; cases he; rw [hst] at hs; cases hs)⟩
     | true =>
       have hr : swStop cfg h m =
           ({ m with active := some { e with started := false }, w := (childStop h cfg.n e.cid m.w).1 },
@@ -1395,7 +1451,7 @@ theorem swStop_spec (cfg : Cfg) (h : Hooks υ) (m : SwSt υ) (hI : SwInv cfg.n m
         · rw [q3 c i (Or.inl hc)] at hs
           obtain ⟨_, e', h1, _, h3⟩ := hI.back c i hs
           rw [hes] at h1; cases h1; exact hc h3.symm
-      refine ⟨⟨q1, ?_, ?_, ?_⟩, ?_, rfl⟩
+      refine ⟨⟨q1, ?_, ?_, ?_, hI.ret⟩, ?_, rfl, rfl, ?_⟩
       · intro e' h1 h2; dsimp only at h1; cases h1; cases h2
       · intro c i hs; exact absurd hs (hnone c i)
       · intro c hc i
@@ -1407,66 +1463,145 @@ theorem swStop_spec (cfg : Cfg) (h : Hooks υ) (m : SwSt υ) (hI : SwInv cfg.n m
         rw [q3 c i (Or.inl hne)]
         exact hI.fresh c hc i
       · intro e' h1; dsimp only at h1; cases h1; rfl
+      · intro e' he _; cases he
+        exact ⟨q2, rfl, rfl⟩
 
-theorem swActivate_inv (cfg : Cfg) (h : Hooks υ) (k : Int) (m : SwSt υ) (hI : SwInv cfg.n m) :
-    SwInv cfg.n (swActivate cfg h k m).1 := by
-  obtain ⟨a1, a2, _⟩ := swStop_spec cfg h m hI
-  -- nothing is started once the old branch is stopped
-  have hnone : ∀ c i, (Lw (swStop cfg h m).1.w).st c i ≠ .started := by
-    intro c i hs
-    obtain ⟨_, e, h1, h2, _⟩ := a1.back c i hs
-    rw [a2 e h1] at h2; cases h2
-  have hfr : ∀ j, (Lw (swStop cfg h m).1.w).st ⟨k, (swStop cfg h m).1.gens k + 1⟩ j = .fresh :=
-    a1.fresh ⟨k, (swStop cfg h m).1.gens k + 1⟩ (by show (swStop cfg h m).1.gens k < (swStop cfg h m).1.gens k + 1; omega)
-  obtain ⟨p1, p2, p3, p4, p5⟩ := childStart_spec h cfg.n ⟨k, (swStop cfg h m).1.gens k + 1⟩ (swStop cfg h m).1.w a1.ok hfr
-  have hfresh' : ∀ c : Cid, setGen (swStop cfg h m).1.gens k ((swStop cfg h m).1.gens k + 1) c.key < c.gen →
-      ∀ i, (Lw (childStart h cfg.n ⟨k, (swStop cfg h m).1.gens k + 1⟩ (swStop cfg h m).1.w).1).st c i = .fresh := by
+/-- emptying the retired slot: under the invariant the graph there is stopped, so nothing happens to the world -/
+theorem swDropRetired_spec (cfg : Cfg) (h : Hooks υ) (m : SwSt υ) (hI : SwInv cfg.n m) :
+    swDropRetired cfg h m = { m with retired := none } := by
+  unfold swDropRetired
+  cases hr : m.retired with
+  | none => cases m; simp_all
+  | some e => simp [hI.ret e hr]
+
+theorem SwInv.dropRetired {n : Nat} {m : SwSt υ} (hI : SwInv n m) : SwInv n { m with retired := none } :=
+  ⟨hI.ok, hI.st, hI.back, hI.fresh, by intro e he; cases he⟩
+
+/-- starting the new branch in a state where nothing is started -/
+theorem swStartNew_spec (cfg : Cfg) (h : Hooks υ) (k : Int) (m : SwSt υ) (hI : SwInv cfg.n m)
+    (hnone : ∀ c i, (Lw m.w).st c i ≠ .started) :
+    SwInv cfg.n (swStartNew cfg h k m).1 ∧
+    (∀ c i, c ≠ ⟨k, m.gens k + 1⟩ → (Lw (swStartNew cfg h k m).1.w).st c i = (Lw m.w).st c i) := by
+  have hfr : ∀ j, (Lw m.w).st ⟨k, m.gens k + 1⟩ j = .fresh :=
+    hI.fresh ⟨k, m.gens k + 1⟩ (by show m.gens k < m.gens k + 1; omega)
+  obtain ⟨p1, p2, p3, p4, p5⟩ := childStart_spec h cfg.n ⟨k, m.gens k + 1⟩ m.w hI.ok hfr
+  have hfresh' : ∀ c : Cid, setGen m.gens k (m.gens k + 1) c.key < c.gen →
+      ∀ i, (Lw (childStart h cfg.n ⟨k, m.gens k + 1⟩ m.w).1).st c i = .fresh := by
     intro c hc i
-    have hlt : (swStop cfg h m).1.gens c.key < c.gen := Nat.lt_of_le_of_lt (le_setGen _ k c.key) hc
-    have hne : c ≠ ⟨k, (swStop cfg h m).1.gens k + 1⟩ := by
+    have hlt : m.gens c.key < c.gen := Nat.lt_of_le_of_lt (le_setGen _ k c.key) hc
+    have hne : c ≠ ⟨k, m.gens k + 1⟩ := by
       intro heq; subst heq
       rw [setGen_same] at hc
       exact Nat.lt_irrefl _ hc
     rw [p2 c i hne]
-    exact a1.fresh c hlt i
-  unfold swActivate
+    exact hI.fresh c hlt i
+  unfold swStartNew
   dsimp only
   split
-  · exact a1
-  · split
-    · rename_i hok
-      refine ⟨p1, ?_, ?_, hfresh'⟩
-      · intro e h1 h2
-        dsimp only at h1 ⊢
-        cases h1
-        refine ⟨fun i hi => p3 hok i hi, ?_⟩
-        show (swStop cfg h m).1.gens k + 1 ≤ setGen (swStop cfg h m).1.gens k ((swStop cfg h m).1.gens k + 1) k
-        rw [setGen_same]; exact Nat.le_refl _
-      · intro c i hs
-        dsimp only at hs ⊢
-        by_cases hc : c = ⟨k, (swStop cfg h m).1.gens k + 1⟩
-        · subst hc
-          have hi : i < cfg.n := by
-            apply Classical.byContradiction
-            intro hni
-            rw [p5 i (by omega)] at hs
-            cases hs
-          exact ⟨hi, ⟨k, (swStop cfg h m).1.gens k + 1, true⟩, rfl, rfl, rfl⟩
-        · rw [p2 c i hc] at hs
-          exact absurd hs (hnone c i)
-    · rename_i x herr
-      refine ⟨p1, ?_, ?_, hfresh'⟩
-      · intro e h1 h2; dsimp only at h1; cases h1; cases h2
-      · intro c i hs
-        dsimp only at hs
-        have hc : c ≠ ⟨k, (swStop cfg h m).1.gens k + 1⟩ := by
-          intro heq; subst heq
-          exact p4 (by rw [herr]; simp) i hs
-        rw [p2 c i hc] at hs
+  · rename_i hok
+    refine ⟨⟨p1, ?_, ?_, hfresh', hI.ret⟩, fun c i hc => p2 c i hc⟩
+    · intro e h1 h2
+      dsimp only at h1 ⊢
+      cases h1
+      refine ⟨fun i hi => p3 hok i hi, ?_⟩
+      show m.gens k + 1 ≤ setGen m.gens k (m.gens k + 1) k
+      rw [setGen_same]; exact Nat.le_refl _
+    · intro c i hs
+      dsimp only at hs ⊢
+      by_cases hc : c = ⟨k, m.gens k + 1⟩
+      · subst hc
+        have hi : i < cfg.n := by
+          apply Classical.byContradiction
+          intro hni
+          rw [p5 i (by omega)] at hs
+          cases hs
+        exact ⟨hi, ⟨k, m.gens k + 1, true⟩, rfl, rfl, rfl⟩
+      · rw [p2 c i hc] at hs
         exact absurd hs (hnone c i)
+  · rename_i x herr
+    refine ⟨⟨p1, ?_, ?_, hfresh', hI.ret⟩, fun c i hc => p2 c i hc⟩
+    · intro e h1 h2; dsimp only at h1; cases h1; cases h2
+    · intro c i hs
+      dsimp only at hs
+      have hc : c ≠ ⟨k, m.gens k + 1⟩ := by
+        intro heq; subst heq
+        exact p4 (by rw [herr]; simp) i hs
+      rw [p2 c i hc] at hs
+      exact absurd hs (hnone c i)
 
-theorem swCycle_inv (cfg : Cfg) (h : Hooks υ) (I : SwIn) (m : SwSt υ) (hI : SwInv cfg.n m) :
-    SwInv cfg.n (swCycle cfg h I m).1 := by
+/-- the state in which the new branch is started: the stopped outgoing branch sits in the retired slot -/
+theorem sw_retire_inv (cfg : Cfg) (h : Hooks υ) (m : SwSt υ) (hI : SwInv cfg.n m) :
+    SwInv cfg.n { (swStop cfg h { m with retired := none }).1 with
+                  retired := (swStop cfg h { m with retired := none }).1.active, active := none, activeKey := none } ∧
+    (∀ c i, (Lw (swStop cfg h { m with retired := none }).1.w).st c i ≠ .started) := by
+  obtain ⟨a1, a2, _, _, _⟩ := swStop_spec cfg h { m with retired := none } hI.dropRetired
+  have hnone : ∀ c i, (Lw (swStop cfg h { m with retired := none }).1.w).st c i ≠ .started := by
+    intro c i hs
+    obtain ⟨_, e, h1, h2, _⟩ := a1.back c i hs
+    rw [a2 e h1] at h2; cases h2
+  refine ⟨⟨a1.ok, ?_, ?_, a1.fresh, ?_⟩, hnone⟩
+  · intro e he; cases he
+  · intro c i hs; exact absurd hs (hnone c i)
+  · intro e he; exact a2 e he
+
+theorem swActivate_inv (cfg : Cfg) (hord : (cfg.fwd && cfg.retireFirst) = false) (h : Hooks υ) (k : Int) (m : SwSt υ)
+    (hI : SwInv cfg.n m) : SwInv cfg.n (swActivate cfg h k m).1 := by
+  obtain ⟨b1, b2⟩ := sw_retire_inv cfg h m hI
+  have a1 := (swStop_spec cfg h { m with retired := none } hI.dropRetired).1
+  unfold swActivate
+  rw [swDropRetired_spec cfg h m hI]
+  simp only [hord, Bool.false_eq_true, if_false]
+  split
+  · exact a1
+  · exact (swStartNew_spec cfg h k _ b1 b2).1
+
+/-- **The outgoing branch is stopped in the cycle of the key change**: whatever the stop hooks of the outgoing
+    branch and the start hooks of the incoming branch do, after `activate_branch` every node of the branch that was
+    active is `stopped` (owned and forwarding output alike). -/
+theorem sw_outgoing_stopped_at_key_change (cfg : Cfg) (hord : (cfg.fwd && cfg.retireFirst) = false) (h : Hooks υ) (k : Int)
+    (m : SwSt υ) (hI : SwInv cfg.n m) (e : Entry) (hact : m.active = some e) (hst : e.started = true) :
+    ∀ i, i < cfg.n → (Lw (swActivate cfg h k m).1.w).st e.cid i = .stopped := by
+  obtain ⟨b1, b2⟩ := sw_retire_inv cfg h m hI
+  obtain ⟨a1, _, a3, _, a5⟩ := swStop_spec cfg h { m with retired := none } hI.dropRetired
+  obtain ⟨q, _, _⟩ := a5 e hact hst
+  have hgen : e.gen ≤ m.gens e.key := (hI.st e hact hst).2
+  unfold swActivate
+  rw [swDropRetired_spec cfg h m hI]
+  simp only [hord, Bool.false_eq_true, if_false]
+  intro i hi
+  split
+  · exact q i hi
+  · have hne : e.cid ≠ ⟨k, (swStop cfg h { m with retired := none }).1.gens k + 1⟩ := by
+      intro heq
+      have hk : e.key = k := congrArg Cid.key heq
+      have hg : e.gen = (swStop cfg h { m with retired := none }).1.gens k + 1 := congrArg Cid.gen heq
+      rw [a3] at hg
+      rw [hk] at hgen
+      have : e.gen = m.gens k + 1 := hg
+      omega
+    rw [(swStartNew_spec cfg h k _ b1 b2).2 e.cid i hne]
+    exact q i hi
+
+/-- **A stop error of the outgoing branch reaches the caller**: if a node of the active branch has a stop hook that
+    throws, a key change fails — `activate_branch` throws (the new branch is not even started), so the switch node's
+    evaluation fails and ends the run (`swRun_first_error`). -/
+theorem sw_outgoing_stop_error_reaches_caller (cfg : Cfg) (hord : (cfg.fwd && cfg.retireFirst) = false) (h : Hooks υ) (k : Int)
+    (m : SwSt υ) (hI : SwInv cfg.n m) (e : Entry) (hact : m.active = some e) (hst : e.started = true)
+    (j : Nat) (hj : j < cfg.n) (ht : ∀ u, (h.stop e.cid j u).2 ≠ none) :
+    (swActivate cfg h k m).2 ≠ none ∧ (swActivate cfg h k m).1.active = some { e with started := false } := by
+  obtain ⟨_, _, _, _, a5⟩ := swStop_spec cfg h { m with retired := none } hI.dropRetired
+  obtain ⟨_, herr, hact'⟩ := a5 e hact hst
+  have hthrow : (swStop cfg h { m with retired := none }).2 ≠ none := by
+    rw [herr]; exact childStop_err_of_throw h cfg.n e.cid m.w j hj ht
+  unfold swActivate
+  rw [swDropRetired_spec cfg h m hI]
+  simp only [hord, Bool.false_eq_true, if_false]
+  split
+  · rename_i x hx; exact ⟨by simp, hact'⟩
+  · rename_i hn; exact absurd hn hthrow
+
+theorem swCycle_inv (cfg : Cfg) (hord : (cfg.fwd && cfg.retireFirst) = false) (h : Hooks υ) (I : SwIn) (m : SwSt υ)
+    (hI : SwInv cfg.n m) : SwInv cfg.n (swCycle cfg h I m).1 := by
   -- the state after the (possible) activation
   have key : ∀ m1 : SwSt υ, SwInv cfg.n m1 →
       SwInv cfg.n (match m1.active with
@@ -1496,7 +1631,7 @@ theorem swCycle_inv (cfg : Cfg) (h : Hooks υ) (I : SwIn) (m : SwSt υ) (hI : Sw
       split
       · split
         · exact hI
-        · exact swActivate_inv cfg h _ m hI
+        · exact swActivate_inv cfg hord h _ m hI
       · exact hI
     split
     · exact hact
@@ -1505,13 +1640,13 @@ theorem swCycle_inv (cfg : Cfg) (h : Hooks υ) (I : SwIn) (m : SwSt υ) (hI : Sw
     simp only [ha', Bool.not_false, if_true]
     exact hI
 
-theorem swRunCycles_inv (cfg : Cfg) (h : Hooks υ) (l : List SwIn) (k : Nat) (m : SwSt υ) (hI : SwInv cfg.n m) :
-    SwInv cfg.n (swRunCycles cfg h l k m).1 := by
+theorem swRunCycles_inv (cfg : Cfg) (hord : (cfg.fwd && cfg.retireFirst) = false) (h : Hooks υ) (l : List SwIn) (k : Nat)
+    (m : SwSt υ) (hI : SwInv cfg.n m) : SwInv cfg.n (swRunCycles cfg h l k m).1 := by
   induction l generalizing k m with
   | nil => exact hI
   | cons I rest ih =>
     have hI' : SwInv cfg.n { m with w := emit (.cyc k) m.w } := hI.setW _ (emit_mark_Lw _ _ (Or.inr (Or.inr ⟨k, rfl⟩)))
-    have a1 := swCycle_inv cfg h I _ hI'
+    have a1 := swCycle_inv cfg hord h I _ hI'
     cases hr : (swCycle cfg h I { m with w := emit (.cyc k) m.w }).2 with
     | none =>
       have heq : swRunCycles cfg h (I :: rest) k m = swRunCycles cfg h rest (k + 1) (swCycle cfg h I { m with w := emit (.cyc k) m.w }).1 := by
@@ -1522,10 +1657,17 @@ theorem swRunCycles_inv (cfg : Cfg) (h : Hooks υ) (l : List SwIn) (k : Nat) (m 
         simp [swRunCycles, hr]
       rw [heq]; exact a1
 
-theorem swRun_spec (cfg : Cfg) (h : Hooks υ) (cycles : List SwIn) (u0 : υ) :
+/-- the release: stop the active branch, empty the retired slot -/
+theorem swRelease_spec (cfg : Cfg) (h : Hooks υ) (m : SwSt υ) (hI : SwInv cfg.n m) :
+    SwInv cfg.n (swDropRetired cfg h (swStop cfg h m).1) ∧ SwNoStarted (swDropRetired cfg h (swStop cfg h m).1) := by
+  obtain ⟨a1, a2, _, _, _⟩ := swStop_spec cfg h m hI
+  rw [swDropRetired_spec cfg h _ a1]
+  exact ⟨a1.dropRetired, a2⟩
+
+theorem swRun_spec (cfg : Cfg) (hord : (cfg.fwd && cfg.retireFirst) = false) (h : Hooks υ) (cycles : List SwIn) (u0 : υ) :
     SwInv cfg.n (swRun cfg h cycles u0).ret ∧ SwInv cfg.n (swRun cfg h cycles u0).fin ∧ SwNoStarted (swRun cfg h cycles u0).fin ∧
     ((cfg.cleanup = true ∨ (swRun cfg h cycles u0).err = none) → SwNoStarted (swRun cfg h cycles u0).ret) := by
-  have h0 := swRunCycles_inv cfg h cycles 0 { w := { u := u0 } } (SwInv.init cfg.n u0)
+  have h0 := swRunCycles_inv cfg hord h cycles 0 { w := { u := u0 } } (SwInv.init cfg.n u0)
   have h1 := h0.setW (emit .stopping (swRunCycles cfg h cycles 0 { w := { u := u0 } }).1.w) (emit_mark_Lw _ _ (Or.inl rfl))
   obtain ⟨s1, s2, _⟩ := swStop_spec cfg h _ h1
   have h2 := s1.setW (emit .returned (swStop cfg h { (swRunCycles cfg h cycles 0 { w := { u := u0 } }).1 with
@@ -1534,32 +1676,66 @@ theorem swRun_spec (cfg : Cfg) (h : Hooks υ) (cycles : List SwIn) (u0 : υ) :
   unfold swRun
   dsimp only
   split
-  · exact ⟨h2, (swStop_spec cfg h _ h2).1, (swStop_spec cfg h _ h2).2.1, fun _ => s2⟩
+  · exact ⟨h2, (swRelease_spec cfg h _ h2).1, (swRelease_spec cfg h _ h2).2, fun _ => s2⟩
   · split
-    · exact ⟨h2, (swStop_spec cfg h _ h2).1, (swStop_spec cfg h _ h2).2.1, fun _ => s2⟩
+    · exact ⟨h2, (swRelease_spec cfg h _ h2).1, (swRelease_spec cfg h _ h2).2, fun _ => s2⟩
     · rename_i hcl
-      refine ⟨h3, (swStop_spec cfg h _ h3).1, (swStop_spec cfg h _ h3).2.1, ?_⟩
+      refine ⟨h3, (swRelease_spec cfg h _ h3).1, (swRelease_spec cfg h _ h3).2, ?_⟩
       intro hc
       rcases hc with hc | hc
       · exact absurd hc hcl
       · cases hc
 
-/-- switch_: no lifecycle violation in any run (all key sequences, all fault assignments) -/
-theorem swRun_no_violation (cfg : Cfg) (h : Hooks υ) (cycles : List SwIn) (u0 : υ) :
+/-- switch_ (owned or forwarding output): no lifecycle violation in any run (all key sequences, all fault assignments) -/
+theorem swRun_no_violation (cfg : Cfg) (hord : (cfg.fwd && cfg.retireFirst) = false) (h : Hooks υ) (cycles : List SwIn) (u0 : υ) :
     (ledgerOf (swRun cfg h cycles u0).ret.w.tr).bad = false ∧ (ledgerOf (swRun cfg h cycles u0).fin.w.tr).bad = false :=
-  ⟨(swRun_spec cfg h cycles u0).1.ok, (swRun_spec cfg h cycles u0).2.1.ok⟩
+  ⟨(swRun_spec cfg hord h cycles u0).1.ok, (swRun_spec cfg hord h cycles u0).2.1.ok⟩
 
 /-- switch_: with clean-up on error (or no error) the branches — the replaced ones and the active one — are all
     stopped when `run()` returns -/
-theorem swRun_clean_at_return (cfg : Cfg) (h : Hooks υ) (cycles : List SwIn) (u0 : υ)
+theorem swRun_clean_at_return (cfg : Cfg) (hord : (cfg.fwd && cfg.retireFirst) = false) (h : Hooks υ) (cycles : List SwIn) (u0 : υ)
     (hc : cfg.cleanup = true ∨ (swRun cfg h cycles u0).err = none) :
     Clean (ledgerOf (swRun cfg h cycles u0).ret.w.tr) :=
-  sw_clean_of_noStarted (swRun_spec cfg h cycles u0).1 ((swRun_spec cfg h cycles u0).2.2.2 hc)
+  sw_clean_of_noStarted (swRun_spec cfg hord h cycles u0).1 ((swRun_spec cfg hord h cycles u0).2.2.2 hc)
 
 /-- switch_: … and in every configuration by the release of the executor -/
-theorem swRun_clean_at_release (cfg : Cfg) (h : Hooks υ) (cycles : List SwIn) (u0 : υ) :
+theorem swRun_clean_at_release (cfg : Cfg) (hord : (cfg.fwd && cfg.retireFirst) = false) (h : Hooks υ) (cycles : List SwIn) (u0 : υ) :
     Clean (ledgerOf (swRun cfg h cycles u0).fin.w.tr) :=
-  sw_clean_of_noStarted (swRun_spec cfg h cycles u0).2.1 (swRun_spec cfg h cycles u0).2.2.1
+  sw_clean_of_noStarted (swRun_spec cfg hord h cycles u0).2.1 (swRun_spec cfg hord h cycles u0).2.2.1
+
+/-- switch_: an error of a cycle — a throwing stop of the outgoing branch, a throwing start of the incoming one, an
+    evaluation error — is what `run()` throws; the stop that follows cannot replace it -/
+theorem swRun_first_error (cfg : Cfg) (h : Hooks υ) (cycles : List SwIn) (u0 : υ) (x : String)
+    (hx : (swRunCycles cfg h cycles 0 { w := { u := u0 } }).2 = some x) : (swRun cfg h cycles u0).err = some x := by
+  unfold swRun
+  dsimp only
+  split
+  · rename_i hn; rw [hn] at hx; cases hx
+  · rename_i y hy
+    rw [hy] at hx; cases hx
+    split <;> rfl
+
+/-- **Counter-lemma for the order of seed s88** (forwarding output, slot retired before the stop): key 1 then key 2,
+    the stop of branch `1#1` throws.  The outgoing branch is never stopped at the key change: `run()` returns NORMALLY
+    with node 0 of `1#1` still started (it is stopped only when the storage is destroyed, its error swallowed); in
+    the code's order the same run fails with the stop error in the cycle of the key change and `1#1` is stopped. -/
+theorem swRun_retire_first_prefix :
+    (swRun { n := 1, fwd := true, retireFirst := true } exHooks [{ key := some 1, ticked := true }, { key := some 2, ticked := true }] ()).err = none ∧
+    (ledgerOf (swRun { n := 1, fwd := true, retireFirst := true } exHooks
+        [{ key := some 1, ticked := true }, { key := some 2, ticked := true }] ()).ret.w.tr).st ⟨1, 1⟩ 0 = .started ∧
+    ¬ Clean (ledgerOf (swRun { n := 1, fwd := true, retireFirst := true } exHooks
+        [{ key := some 1, ticked := true }, { key := some 2, ticked := true }] ()).ret.w.tr) ∧
+    (ledgerOf (swRun { n := 1, fwd := true, retireFirst := true } exHooks
+        [{ key := some 1, ticked := true }, { key := some 2, ticked := true }] ()).fin.w.tr).st ⟨1, 1⟩ 0 = .stopped ∧
+    (swRun { n := 1, fwd := true } exHooks [{ key := some 1, ticked := true }, { key := some 2, ticked := true }] ()).err = some "stop" ∧
+    (ledgerOf (swRun { n := 1, fwd := true } exHooks
+        [{ key := some 1, ticked := true }, { key := some 2, ticked := true }] ()).ret.w.tr).st ⟨1, 1⟩ 0 = .stopped := by
+  have hw : (ledgerOf (swRun { n := 1, fwd := true, retireFirst := true } exHooks
+        [{ key := some 1, ticked := true }, { key := some 2, ticked := true }] ()).ret.w.tr).st ⟨1, 1⟩ 0 = .started := by
+    decide
+  refine ⟨by decide, hw, ?_, by decide, by decide, by decide⟩
+  intro hc
+  exact hc ⟨1, 1⟩ 0 hw
 
 /-! ## the reduce node -/
 
@@ -1667,39 +1843,6 @@ theorem reduce_clean_at_release (cfg : Cfg) (h : Hooks υ) (cycles : List RedIn)
   clean_of_noStarted (redRun_spec cfg h cycles u0).2.1 (redRun_spec cfg h cycles u0).2.2.1
 
 /-! ### a stop error of a live combiner reaches the caller -/
-
-theorem nodeStop_err (h : Hooks υ) (c : Cid) (i : Nat) (w : World υ) : (nodeStop h c i w).err = (h.stop c i w.u).2 := by
-  unfold nodeStop
-  simp only [emit_u]
-  cases (h.stop c i w.u).2 <;> rfl
-
-theorem stopLoop_err_sticky' {σ : Type} (stop : Nat → σ → StepRes σ) (k : Nat) (s : σ) (vis : List Nat) (e : Option String)
-    (he : e ≠ none) : (stopLoop stop k s vis e).err ≠ none := by
-  cases e with
-  | none => exact absurd rfl he
-  | some m => rw [stopLoop_err_some]; simp
-
-/-- a node whose stop hook throws (whatever the state) makes the child graph's stop report an error -/
-theorem stopLoop_err_of_throw (h : Hooks υ) (c : Cid) (k : Nat) (w : World υ) (vis : List Nat) (e : Option String)
-    (j : Nat) (hj : j < k) (ht : ∀ u, (h.stop c j u).2 ≠ none) :
-    (stopLoop (nodeStop h c) k w vis e).err ≠ none := by
-  induction k generalizing w vis e with
-  | zero => omega
-  | succ k ih =>
-    rw [stopLoop_succ]
-    by_cases hjk : j = k
-    · subst hjk
-      apply stopLoop_err_sticky'
-      rw [nodeStop_err]
-      cases e with
-      | some m => simp [keepFirst]
-      | none => simp only [keepFirst]; exact ht _
-    · exact ih _ _ _ (by omega)
-
-theorem childStop_err_of_throw (h : Hooks υ) (n : Nat) (c : Cid) (w : World υ) (j : Nat) (hj : j < n)
-    (ht : ∀ u, (h.stop c j u).2 ≠ none) : (childStop h n c w).2 ≠ none := by
-  unfold childStop
-  exact stopLoop_err_of_throw h c n _ [] none j hj ht
 
 theorem removeEntry_err_of_throw (cfg : Cfg) (h : Hooks υ) (s : Nat) (m : MapSt υ) (e : Entry) (hes : m.ent s = some e)
     (hst : e.started = true) (j : Nat) (hj : j < cfg.n) (ht : ∀ u, (h.stop e.cid j u).2 ≠ none) :
